@@ -43,6 +43,13 @@ EXTRA = {
             ("SafeC.Conv.stored_then_zeroed", "SafeC.Proofs.ConvWrap", "lemma", "dest after 'libc stored out, wrapper zeroed n cells from index k': no fault, extent, prefix = out, zeros"),
             ("SafeC.Conv.tailW_ok", "SafeC.Proofs.ConvWrap", "lemma", "success tail of mbstowcs_s/mbsrtowcs_s for an arbitrary libc result"),
             ("SafeC.Conv.tailB_ok", "SafeC.Proofs.ConvWrap", "lemma", "success tail of wcstombs_s/wcsrtombs_s for an arbitrary libc result")],
+    "C16": [("SafeC.Sort.cycleGo_perm", "SafeC.Proofs.SortRel", "lemma", "the element moves of cycle() (tmp = a[ar0]; a[ar_i] = a[ar_i+1]; a[ar_last] = tmp), ANY position list incl. repeated positions: result is a permutation"),
+            ("SafeC.Sort.smooth_rel", "SafeC.Proofs.SortRel", "lemma", "the whole smoothsort (main loop, final trinkle, dismantling loop), any bit vector/pshift/table state, any comparator: permutation + logged comparisons in range with the caller's ctx"),
+            ("SafeC.Sort.bsearchLoop_spec", "SafeC.Proofs.Bsearch", "lemma", "loop invariant of the halving loop on a partitioned array: left of the window compares greater, right of it less"),
+            ("SafeC.Sort.bsearchLoop_any", "SafeC.Proofs.Bsearch", "lemma", "halving loop under an arbitrary comparator: returns, probes inside the window, at most steps(m) probes"),
+            ("SafeC.Sort.siftLoop_safe", "SafeC.Proofs.SortSafe", "lemma", "loop invariant of sift: the walk stays inside the Leonardo tree (positions < n, no pointer below base, ar[] not overrun), any comparator"),
+            ("SafeC.Sort.cycleGo_tot", "SafeC.Proofs.SortSafe", "lemma", "the element moves of cycle() on in-range positions never fault"),
+            ("SafeC.Sort.steps_bound", "SafeC.Proofs.Bsearch", "lemma", "steps(m) <= ceil(log2 m) + 1, in the form 2^(steps m - 1) <= 2(m-1) for m >= 2")],
     "C08": [("SafeC.nullSlack_ok", "SafeC.Lemmas", "lemma", "both slack strategies (memset > 0x20, byte loop) zero the whole tail")],
     "C18": [("SafeC.setPrologue_ok", "SafeC.Proofs.MemSet", "lemma", "mem_prim_set alignment prologue: k <= count bytes stored, stops aligned or exhausted"),
             ("SafeC.setBlocks_ok", "SafeC.Proofs.MemSet", "lemma", "mem_prim_set 16-way unrolled body, induction on the block count: q*128 bytes"),
